@@ -33,8 +33,12 @@ func (c *Ctx) opsFor(m modeling.Mesh, all []string) string {
 		name := all[c.Rng.Intn(len(all))]
 		ok := true
 		switch name {
-		case "flip", "weld", "removenull", "split":
+		case "flip", "weld", "removenull", "split", "smoothnormals", "flatnormals":
 			ok = m.Topology() == modeling.TriangleTopology
+		case "laplacian":
+			// line and line-loop neighbour tables are not modelled (and an empty line loop makes
+			// VertexNeighborTable index m.indices[0]); see notes/C03.md
+			ok = m.Topology() == modeling.TriangleTopology || m.Topology() == modeling.LineStripTopology
 		case "crop":
 			ok = m.Topology() == modeling.PointTopology
 		case "filter":
@@ -43,6 +47,9 @@ func (c *Ctx) opsFor(m modeling.Mesh, all []string) string {
 			ok = m.Topology() != modeling.PointTopology || c.Rng.Intn(4) == 0
 		}
 		if ok || c.Rng.Intn(10) == 0 {
+			if name == "laplacian" && (m.Topology() == modeling.LineTopology || m.Topology() == modeling.LineLoopTopology) {
+				continue
+			}
 			return name
 		}
 	}
@@ -67,8 +74,10 @@ func (c *Ctx) emitOp03(r opRun, m modeling.Mesh) {
 		c.Emit("c03.holds."+r.name+"_spec", in+" "+out, "true")
 	case "append":
 		c.Emit("c03.holds.append_spec", r.args+" "+out, "true")
-	case "translate", "scale", "rotate":
+	case "translate", "scale", "rotate", "center", "normalize", "laplacian":
 		c.Emit("c03.holds.frame_spec", "3 "+f[0]+" "+in+" "+out, "true")
+	case "smoothnormals", "flatnormals":
+		c.Emit("c03.holds.frame_spec", "3 "+modeling.NormalAttribute+" "+in+" "+out, "true")
 	case "meshscale", "applytrs":
 		c.Emit("c03.holds.frame_spec", "3 "+modeling.PositionAttribute+" "+in+" "+out, "true")
 	case "filter":
